@@ -186,18 +186,32 @@ func stringSource(v ssa.Value) ssa.Value {
 
 // perItemLoop finds the range loop over the slice returned by GetNodesAtLevel that contains instruction `in`.
 func loopAround(fn *ssa.Function, in ssa.Instruction) (ir.IfInfo, bool) {
+	// the innermost counted loop (induction variable < bound) whose body contains `in`: among the candidates, the
+	// one whose body entry is dominated by the body entries of all the others
+	var cands []ir.IfInfo
 	for _, ii := range ir.Ifs(fn) {
 		a := ii.Atom
-		if a.V != nil || a.Op != token.LSS || !isInduction(a.X) {
+		if ii.Via != nil || a.V != nil || a.Op != token.LSS || !isInduction(a.X) {
 			continue
 		}
-		body := ir.Pt{B: ii.If.Block().Succs[ii.EdgeWhen(true)], I: 0}
+		body := ir.EdgePt(ii.If.Block(), ii.EdgeWhen(true))
 		res := ir.Reach([]ir.Pt{body}, ir.Opts{Stop: func(x ssa.Instruction) bool { return x == ssa.Instruction(ii.If) }})
 		if res.Reached[in] && res.Stopped[ii.If] {
-			return ii, true
+			cands = append(cands, ii)
 		}
 	}
-	return ir.IfInfo{}, false
+	if len(cands) == 0 {
+		return ir.IfInfo{}, false
+	}
+	best := cands[0]
+	for _, c := range cands[1:] {
+		cb := c.If.Block().Succs[c.EdgeWhen(true)]
+		bb := best.If.Block().Succs[best.EdgeWhen(true)]
+		if bb.Dominates(cb) && bb != cb {
+			best = c
+		}
+	}
+	return best, true
 }
 
 func ruleSeenOnlyIfFound(r *core.Reporter) {
@@ -347,7 +361,7 @@ func ruleSeenOnlyIfFound(r *core.Reporter) {
 			if !okOuter {
 				continue
 			}
-			start := ir.Pt{B: ii.If.Block().Succs[ii.EdgeWhen(true)], I: 0}
+			start := ir.EdgePt(ii.If.Block(), ii.EdgeWhen(true))
 			rs := ir.Reach([]ir.Pt{start}, ir.Opts{Stop: func(x ssa.Instruction) bool { return x == ssa.Instruction(outer.If) }})
 			if rs.Reached[m] {
 				// reaching the mark after a match is only OK if a flag prevents it; check guard on a phi that is true on this path
